@@ -368,7 +368,7 @@ def _scratch_noop():
     return None
 
 
-def scratch_environment(ids):
+def scratch_environment(ids, pools=None):
     """A private Environment of the user's own (a calendar, a what-if) that lives next to the model's: events for the
     same asset ids are scheduled, paused, cancelled, resumed and run in it.  The instrumentation is silent meanwhile;
     the model's own Environment must not notice."""
@@ -385,4 +385,16 @@ def scratch_environment(ids):
         e.pause_matching_events(ids[-1])
         e.run(len(ids) + 4)
         e.step() if e._events else None
+        if pools:
+            # ... and a pool manager of its own with pools of the same names, filled to the brim
+            from simprocesd.model import ResourceManager
+            rm = ResourceManager()
+            rm.initialize(e)
+            kept = []
+            for name in pools:
+                rm.add_resources(name, 1)
+                kept.append(rm.reserve_resources({name: 1}))
+            rm.reserve_resources({pools[0]: 1})         # refused: the pool is full
+            e.run(1)
+            e.h_scratch_manager = (rm, kept)
     return e
